@@ -327,6 +327,61 @@ pub fn trees(depth: usize) -> Vec<T> {
     out
 }
 
+fn depth_of(t: &T) -> usize {
+    match t {
+        T::Probe | T::Identity => 0,
+        T::Then(a, b) | T::And(a, b) => 1 + depth_of(a).max(depth_of(b)),
+        T::MapArr(a) | T::MapTup(a) | T::ThenMapArr(a) | T::MapVec(a, _) | T::Repeat(a, _) => 1 + depth_of(a),
+    }
+}
+
+/// A deterministic stride of the depth-3 trees, built without materialising all 8.8 M of them:
+/// every unary constructor over a stride of the depth-2 trees, and Then/And over a stride of the
+/// ordered pairs of trees of depth <= 2 in which at least one has depth exactly 2.
+/// Returns (trees, number of depth-3 trees in total).
+pub fn depth3_sample(want: usize) -> (Vec<T>, u64) {
+    let d2 = trees(2);
+    let deep: Vec<usize> = (0..d2.len()).filter(|i| depth_of(&d2[*i]) == 2).collect();
+    let n = d2.len() as u64;
+    let nd = deep.len() as u64;
+    let unary_total = nd * 10;
+    let binary_total = 2 * (n * n - (n - nd) * (n - nd));
+    let total = unary_total + binary_total;
+    let mut out = vec![];
+    // unary: a tenth of the budget
+    let ustride = ((unary_total as usize) / (want / 10).max(1)).max(1);
+    let mut k = 0usize;
+    for i in &deep {
+        let a = &d2[*i];
+        let mut cands = vec![T::MapArr(Box::new(a.clone())), T::MapTup(Box::new(a.clone())), T::ThenMapArr(Box::new(a.clone()))];
+        for m in [0usize, 1, 3] {
+            cands.push(T::MapVec(Box::new(a.clone()), m));
+        }
+        for m in 0..=3usize {
+            cands.push(T::Repeat(Box::new(a.clone()), m));
+        }
+        for c in cands {
+            if k % ustride == 0 {
+                out.push(c);
+            }
+            k += 1;
+        }
+    }
+    // binary: pairs (i, j) by a stride over the index space, keeping those with a depth-2 member
+    let pairs = n * n;
+    let bstride = (pairs / (want as u64)).max(1) | 1; // odd, so that it walks through both coordinates
+    let mut p = 0u64;
+    while p < pairs {
+        let (i, j) = ((p / n) as usize, (p % n) as usize);
+        if depth_of(&d2[i]) == 2 || depth_of(&d2[j]) == 2 {
+            out.push(T::Then(Box::new(d2[i].clone()), Box::new(d2[j].clone())));
+            out.push(T::And(Box::new(d2[j].clone()), Box::new(d2[i].clone())));
+        }
+        p += bstride;
+    }
+    (out, total)
+}
+
 /// run one (tree, failure plan) on the real combinators and on CompRef
 pub fn check_tree(t: &T, fail_at: &[usize]) -> (Option<(String, String)>, usize) {
     let log = Rc::new(RefCell::new(Log { calls: vec![], fail_at: fail_at.to_vec() }));
@@ -501,20 +556,14 @@ fn wrappers(run: &mut Run) -> u64 {
 
 pub fn run(run: &mut Run) {
     let depth = 3;
-    let mut ts = trees(depth);
+    // every tree up to depth 2 and a deterministic stride of the depth-3 trees
+    let mut ts = trees(2);
     {
-        // depth 3 is large: keep every tree up to depth 2 and a deterministic stride of depth-3 trees
-        let d2 = trees(2);
-        let d2set: std::collections::HashSet<String> = d2.iter().map(|t| format!("{t:?}")).collect();
-        let extra: Vec<T> = ts.iter().filter(|t| !d2set.contains(&format!("{t:?}"))).cloned().collect();
-        let want = if run.quick() { 6_000 } else { 400_000 };
-        let stride = (extra.len() / want).max(1);
-        run.bound("depth3_stride", json!(stride));
-        if stride > 1 {
-            run.cap_hit(format!("depth-3 trees: every {stride}-th of {} explored; depth <= 2 complete", extra.len()));
-        }
-        ts = d2;
-        ts.extend(extra.into_iter().step_by(stride));
+        let want = if run.quick() { 20_000 } else { 4_000_000 };
+        let (extra, total) = depth3_sample(want);
+        run.bound("depth3_trees_explored", json!(extra.len()));
+        run.cap_hit(format!("depth-3 trees: {} of {total} explored (deterministic stride); depth <= 2 complete", extra.len()));
+        ts.extend(extra);
     }
     // every tree builds its own probes (Rc-based, thread-local by construction): trees are sharded over the cores
     let per_tree = mcx::par_map(ts.len(), |i| {
